@@ -1,2 +1,460 @@
+// C20 parts 3 and 4 — script-driven actions have the same effect as the configuration-file / engine-driven path.
+// Every operation exists in two forms: through the script interface, and directly on the engine-side/API path.
+// Part 3: single actions from several module states (configuration texts whole and piecewise, good and bad; forces
+// added from the engine's force callback; state loaded into a fresh module; deletions and reset).
+// Part 4: ALL sequences over the operation alphabet up to a depth bound, script path vs direct path, followed by
+// two steps; plus `cv list` against the internal lists and (scenario A) values against own arithmetic.
 #include "c20_common.h"
-void part34(std::vector<Scn> const &scs, Args const &args, Result &total) {}
+
+enum K { STEP, CFGX, ADDF0, ADDF1, DELB0, DELB1, DELC0, DELC1, SAVELOAD, ACT_OFF, ACT_ON, GETACT, UPDATE, RESET, CFGALL, CVDELETE, NOPS };
+static const char *KN[NOPS] = {"step", "cv config <one more bias>", "cv colvar <1st> addforce", "cv colvar <2nd> addforce", "cv bias <1st> delete",
+                               "cv bias <2nd> delete", "cv colvar <1st> delete", "cv colvar <2nd> delete", "cv savetostring + cv loadfromstring",
+                               "cv colvar <1st> set active 0", "cv colvar <1st> set active 1", "cv colvar <1st> get active", "cv update", "cv reset",
+                               "cv config <whole scenario>", "cv delete"};
+
+static std::string force_text(Scn const &sc, int vi)
+{
+  static const char *F[3][2] = {{"0.25", "0.1 0.2 0.3"}, {"0.25", "0.1 0.2 0.3 0.4"}, {"0.25", "0.1 0.2 0.3 0.4 0.5 0.6"}};
+  return F[sc.id == "A" ? 0 : (sc.id == "B" ? 1 : 2)][vi];
+}
+
+struct Run {
+  vproxy *px; Scn const *sc; long next = 0; bool script;
+  std::string log;       // per-operation outcome (accepted / rejected), compared between the two paths
+  std::string problem;   // agreement problem seen inside the run
+  bool deact0 = false;   // the user switched the first variable off
+};
+
+static void direct_guard_begin() { cvm::clear_error(); }
+static int direct_guard_end() { int e = cvm::get_error(); cvm::clear_error(); return e; }
+
+// accepted = returned OK and raised no error
+static bool okS(SR const &s) { return s.rc == 0 && s.errbits == 0; }
+
+static void apply(Run &r, int op)
+{
+  vproxy &px = *r.px;
+  Scn const &sc = *r.sc;
+  bool ok = true;
+  switch (op) {
+  case STEP: { place(px, r.next); int rc = px.step(r.next); r.next++; ok = (rc == 0); break; }
+  case CFGX: case CFGALL: {
+    std::string t = op == CFGX ? sc.xc : all_conf(sc);
+    if (r.script) ok = okS(cvs(px, W({"cv", "config", t}))); else ok = px.config(t) == 0;
+    break;
+  }
+  case ADDF0: case ADDF1: {
+    int vi = op == ADDF0 ? 0 : 1;
+    std::string ft = force_text(sc, vi);
+    if (r.script) ok = okS(cvs(px, W({"cv", "colvar", sc.cvn[vi], "addforce", ft})));
+    else {
+      colvar *cv = px.cv(sc.cvn[vi]);
+      ok = cv != NULL;
+      if (cv) {
+        direct_guard_begin();
+        colvarvalue f(cv->value());
+        f.is_derivative();
+        std::vector<double> c; { std::istringstream is(ft); double d; while (is >> d) c.push_back(d); }
+        switch (f.type()) {
+        case colvarvalue::type_scalar: f.real_value = c[0]; break;
+        case colvarvalue::type_3vector: case colvarvalue::type_unit3vector: case colvarvalue::type_unit3vectorderiv: f.rvector_value = cvm::rvector(c[0], c[1], c[2]); break;
+        case colvarvalue::type_quaternion: case colvarvalue::type_quaternionderiv: f.quaternion_value = cvm::quaternion(c[0], c[1], c[2], c[3]); break;
+        default: for (size_t i = 0; i < c.size() && i < f.vector1d_value.size(); i++) f.vector1d_value[i] = c[i];
+        }
+        cv->enable(colvardeps::f_cv_apply_force);
+        cv->add_bias_force(f);
+        ok = direct_guard_end() == 0;
+      }
+    }
+    break;
+  }
+  case DELB0: case DELB1: {
+    std::string n = sc.bn[op - DELB0];
+    if (r.script) ok = okS(cvs(px, W({"cv", "bias", n, "delete"})));
+    else { colvarbias *b = px.bias(n); ok = b != NULL; if (b) { direct_guard_begin(); delete b; ok = direct_guard_end() == 0; } }
+    break;
+  }
+  case DELC0: case DELC1: {
+    std::string n = sc.cvn[op - DELC0];
+    if (op == DELC0) r.deact0 = false;
+    if (r.script) ok = okS(cvs(px, W({"cv", "colvar", n, "delete"})));
+    else { colvar *c = px.cv(n); ok = c != NULL; if (c) { direct_guard_begin(); delete c; ok = direct_guard_end() == 0; } }
+    break;
+  }
+  case SAVELOAD: {
+    if (r.script) {
+      SR s = cvs(px, W({"cv", "savetostring"}));
+      ok = s.rc == 0;
+      if (ok) ok = okS(cvs(px, W({"cv", "loadfromstring", s.out})));
+    } else {
+      std::string t = px.state_text();
+      direct_guard_begin();
+      px.input_stream_from_string("input state string", t);
+      int rc = px.colvars->setup_input();
+      ok = (direct_guard_end() | rc) == 0;
+    }
+    break;
+  }
+  case ACT_OFF: case ACT_ON: {
+    std::string n = sc.cvn[0];
+    if (px.cv(n)) r.deact0 = (op == ACT_OFF);
+    if (r.script) ok = okS(cvs(px, W({"cv", "colvar", n, "set", "active", op == ACT_ON ? "1" : "0"})));
+    else {
+      colvar *c = px.cv(n); ok = c != NULL;
+      if (c) { direct_guard_begin(); int rc = op == ACT_ON ? c->enable(colvardeps::f_cv_active) : c->disable(colvardeps::f_cv_active); (void) rc; ok = direct_guard_end() == 0; }
+    }
+    break;
+  }
+  case GETACT: {
+    colvar *c = px.cv(sc.cvn[0]);
+    if (r.script) {
+      SR s = cvs(px, W({"cv", "colvar", sc.cvn[0], "get", "active"}));
+      ok = s.rc == 0;
+      if (c && (s.rc != 0 || s.out != (c->is_enabled(colvardeps::f_cv_active) ? "1" : "0")) && r.problem.empty())
+        r.problem = "get-active-disagrees-with-internal-flag: script gave \"" + s.out + "\"";
+    } else ok = c != NULL;
+    break;
+  }
+  case UPDATE: {
+    if (r.script) ok = okS(cvs(px, W({"cv", "update"})));
+    else { direct_guard_begin(); int rc = px.update_input(); if (!rc) rc = px.colvars->calc(); if (!rc) rc = px.update_output(); ok = (direct_guard_end() | rc) == 0; }
+    break;
+  }
+  case RESET: {
+    r.deact0 = false;
+    if (r.script) ok = okS(cvs(px, W({"cv", "reset"})));
+    else { direct_guard_begin(); int rc = px.colvars->reset(); ok = (direct_guard_end() | rc) == 0; }
+    break;
+  }
+  case CVDELETE: {
+    // only meaningful in VMD: must be refused and change nothing
+    if (r.script) { SR s = cvs(px, W({"cv", "delete"})); if (s.rc == 0 && r.problem.empty()) r.problem = "cv-delete-accepted-outside-VMD"; }
+    ok = false;
+    break;
+  }
+  }
+  r.log += ok ? "+" : "-";
+}
+
+// own arithmetic for scenario A
+static bool own_value(vproxy &px, std::string const &n, std::vector<double> &o)
+{
+  auto X = [&](int a) { return px.x[a]; };
+  if (n == "d") {
+    double m1 = px.m[0], m2 = px.m[1];
+    cvm::rvector dv = X(2) - (m1 * X(0) + m2 * X(1)) / (m1 + m2);
+    o = {std::sqrt(dv.x * dv.x + dv.y * dv.y + dv.z * dv.z)};
+    return true;
+  }
+  if (n == "v") {
+    double m5 = px.m[4], m6 = px.m[5];
+    cvm::rvector v = (m5 * X(4) + m6 * X(5)) / (m5 + m6) - X(3);
+    o = {v.x, v.y, v.z};
+    return true;
+  }
+  if (n == "zz") {
+    cvm::rvector dv = X(5) - X(0);
+    o = {std::sqrt(dv.x * dv.x + dv.y * dv.y + dv.z * dv.z)};
+    return true;
+  }
+  return false;
+}
+
+struct Out { std::string rec, log, problem, listp; std::string stale_inactive, stale_active; int steprc[2] = {0, 0}; };
+
+static Out run_seq(Scn const &sc, int start, std::vector<int> const &ops, bool script, std::vector<std::string> const *pre = NULL)
+{
+  Out o;
+  Run r; r.sc = &sc; r.script = script;
+  r.px = new_px(sc);
+  if (start >= 1 && r.px->config(all_conf(sc)) != 0) { fprintf(stderr, "HARNESS-ERROR: scenario rejected: %s\n", r.px->errtxt.c_str()); _exit(2); }
+  if (start == 2) for (long s = 0; s < 3; s++) { place(*r.px, s); if (r.px->step(s) != 0) { fprintf(stderr, "HARNESS-ERROR: step: %s\n", r.px->errtxt.c_str()); _exit(2); } r.next = s + 1; }
+  (void) pre;
+  for (int op : ops) apply(r, op);
+  for (int k = 0; k < 2; k++) {
+    place(*r.px, r.next);
+    int rc = r.px->step(r.next);
+    r.next++;
+    o.steprc[k] = rc;
+    if (rc != 0 && getenv("C20_DEBUG")) { FILE *f = fopen("/tmp/c20_probe/steperr.txt", "a"); if (f) { std::string e = r.px->errtxt.size() > 200 ? r.px->errtxt.substr(r.px->errtxt.size() - 200) : r.px->errtxt; for (char &ch : e) if (ch == '\n') ch = '|'; fprintf(f, "%s\n", e.c_str()); fclose(f); } }
+    o.rec += "step rc " + std::to_string(rc) + "\n" + observe(*r.px);
+    if (o.listp.empty()) o.listp = list_problem(*r.px);
+    if (script && sc.id == "A" && rc == 0) {
+      // the value returned by the script is the value of the current coordinates
+      for (colvar *cv : *(r.px->colvars->variables())) {
+        std::vector<double> want;
+        if (!own_value(*r.px, cv->name, want)) continue;
+        SR s = cvs(*r.px, W({"cv", "colvar", cv->name, "value"}));
+        std::vector<double> got;
+        { std::istringstream is(s.out); double d; while (is >> d) got.push_back(d); }
+        bool same = s.rc == 0 && got.size() == want.size();
+        for (size_t i = 0; same && i < want.size(); i++) if (!close_rel(got[i], want[i], std::max(1.0, std::fabs(want[i])))) same = false;
+        if (same) continue;
+        bool active = cv->is_enabled(colvardeps::f_cv_active);
+        if (!active && cv->name == sc.cvn[0] && r.deact0) continue;  // switched off by the user: a stale value is what was asked for
+        std::string d = cv->name + ": script value \"" + s.out + "\" vs current coordinates " + num(want[0]);
+        if (!active) { if (o.stale_inactive.empty()) o.stale_inactive = d; }
+        else if (o.stale_active.empty()) o.stale_active = d;
+      }
+    }
+  }
+  o.log = r.log;
+  o.problem = r.problem;
+  delete r.px;
+  return o;
+}
+
+static std::string ops_json(std::vector<int> const &ops)
+{
+  std::string s = "[";
+  for (size_t i = 0; i < ops.size(); i++) s += std::string(i ? "," : "") + "\"" + KN[ops[i]] + "\"";
+  return s + "]";
+}
+
+static std::string ops_sig(std::vector<int> const &ops)
+{
+  // the operations that matter for a signature: the last one
+  static const char *SN[NOPS] = {"step", "config-bias", "addforce", "addforce", "bias-delete", "bias-delete", "colvar-delete", "colvar-delete", "save-load",
+                                 "set-active-0", "set-active-1", "get-active", "update", "reset", "config-all", "cv-delete"};
+  return ops.empty() ? "none" : SN[ops.back()];
+}
+
+static void check_seq(Scn const &sc, int start, std::vector<int> const &ops, Result &r, int part)
+{
+  static const char *SN[3] = {"empty", "configured", "after-3-steps"};
+  Out a = run_seq(sc, start, ops, true);
+  Out b = run_seq(sc, start, ops, false);
+  r.count("evaluations");
+  r.count(part == 3 ? "p3_pairs" : "p4_sequences");
+  r.count("transitions", 2 * (ops.size() + 2));
+  r.seen("states", a.rec);
+  r.seen("nontrivial", "seq:" + sc.id + SN[start] + ops_json(ops));
+  std::string det = "{\"part\":" + std::to_string(part) + ",\"scenario\":\"" + sc.id + "\",\"start_state\":\"" + SN[start] + "\",\"operations\":" + ops_json(ops) +
+                    ",\"accepted_script_path\":\"" + a.log + "\",\"accepted_direct_path\":\"" + b.log + "\"";
+  std::string P = part == 3 ? "C20:path:" : "C20:seq:";
+  if (a.log != b.log) {
+    size_t i = 0; while (i < a.log.size() && i < b.log.size() && a.log[i] == b.log[i]) i++;
+    std::vector<int> upto(ops.begin(), ops.begin() + std::min(ops.size(), i + 1));
+    r.violation(P + "accepted-by-one-path-rejected-by-the-other:" + ops_sig(upto), det + "}");
+  } else if (a.rec != b.rec) {
+    r.violation(P + "script-path-differs-from-direct-path:after:" + ops_sig(ops), det + ",\"first_difference\":\"" + jesc(first_diff(a.rec, b.rec)) + "\"}");
+  }
+  if (!a.problem.empty()) r.violation(P + a.problem.substr(0, a.problem.find(':')), det + ",\"problem\":\"" + jesc(a.problem) + "\"}");
+  if (!a.listp.empty()) r.violation(P + "list-disagrees-with-internal-lists", det + ",\"problem\":\"" + jesc(a.listp) + "\"}");
+  if (!a.stale_inactive.empty()) r.violation("C20:variable-left-inactive-after-its-biases-were-deleted", det + ",\"problem\":\"" + jesc(a.stale_inactive) + "\"}");
+  if (!a.stale_active.empty()) r.violation(P + "script-value-is-not-the-value-of-the-current-coordinates", det + ",\"problem\":\"" + jesc(a.stale_active) + "\"}");
+  if (a.steprc[0] || a.steprc[1]) r.count("sequences_whose_final_steps_report_an_error");
+  if ((fnv(ops_json(ops)) % 997) == 5) r.sample(det + "}", 3);
+}
+
+// ------------------------------------------------------------------ part 3 extras
+// (a) configuration text through `cv config` vs read_config_string, whole / piecewise / erroneous, before and after steps
+static void p3_config(Scn const &sc, Result &r)
+{
+  std::vector<std::pair<std::string, std::vector<std::string>>> menus;
+  menus.push_back({"whole", {all_conf(sc)}});
+  std::vector<std::string> pieces;
+  for (auto &c : sc.cvc) pieces.push_back(c);
+  for (auto &c : sc.bc) pieces.push_back(c);
+  menus.push_back({"piecewise", pieces});
+  std::vector<std::string> p2 = pieces; p2.push_back(sc.zc); p2.push_back(sc.xc);
+  menus.push_back({"piecewise-plus-extras", p2});
+  menus.push_back({"bias-before-its-variable", {sc.bc[0], all_conf(sc)}});
+  menus.push_back({"bias-on-unknown-variable", {all_conf(sc), "harmonic {\n name bad\n colvars nosuch\n centers 0.0\n forceConstant 1.0\n}\n"}});
+  menus.push_back({"variable-missing-a-group", {all_conf(sc), "colvar {\n name e\n distance {\n group1 { atomNumbers 1 }\n }\n}\n"}});
+  menus.push_back({"unbalanced-brace", {all_conf(sc), "colvar {\n name e\n"}});
+  menus.push_back({"duplicate-name", {all_conf(sc), sc.cvc[0]}});
+  menus.push_back({"global-keywords", {"colvarsTrajFrequency 0\ncolvarsRestartFrequency 0\n", all_conf(sc)}});
+  menus.push_back({"empty-text", {all_conf(sc), ""}});
+  for (auto &m : menus) for (int steps_between = 0; steps_between < 2; steps_between++) {
+    std::string rec[2], log[2];
+    for (int path = 0; path < 2; path++) {
+      vproxy *px = new_px(sc);
+      long next = 0;
+      for (size_t i = 0; i < m.second.size(); i++) {
+        bool ok = path == 0 ? cvs(*px, W({"cv", "config", m.second[i]})).rc == 0 : px->config(m.second[i]) == 0;
+        log[path] += ok ? "+" : "-";
+        if (steps_between && i + 1 < m.second.size()) { place(*px, next); px->step(next); next++; rec[path] += observe(*px, false); }
+      }
+      for (int k = 0; k < 2; k++) { place(*px, next); int rc = px->step(next); next++; rec[path] += "step rc " + std::to_string(rc) + "\n" + observe(*px); }
+      std::string lp = list_problem(*px);
+      if (!lp.empty()) rec[path] += "LISTPROBLEM " + lp;
+      delete px;
+    }
+    r.count("evaluations"); r.count("p3_pairs"); r.count("transitions", 2 * (m.second.size() + 2));
+    r.seen("nontrivial", "p3cfg:" + sc.id + m.first + std::to_string(steps_between));
+    r.seen("states", rec[0]);
+    std::string det = "{\"part\":3,\"scenario\":\"" + sc.id + "\",\"configuration_menu\":\"" + m.first + "\",\"steps_between_pieces\":" + std::to_string(steps_between) +
+                      ",\"accepted_script_path\":\"" + log[0] + "\",\"accepted_direct_path\":\"" + log[1] + "\"";
+    if (log[0] != log[1]) r.violation("C20:path:config:accepted-by-one-path-rejected-by-the-other:" + m.first, det + "}");
+    else if (rec[0] != rec[1]) r.violation("C20:path:config:script-path-differs-from-direct-path:" + m.first, det + ",\"first_difference\":\"" + jesc(first_diff(rec[0], rec[1])) + "\"}");
+    if (rec[0].find("LISTPROBLEM") != std::string::npos) r.violation("C20:path:config:list-disagrees-with-internal-lists:" + m.first, det + ",\"problem\":\"" + jesc(rec[0].substr(rec[0].find("LISTPROBLEM"))) + "\"}");
+  }
+}
+
+// (b) force added from the engine's force callback: through the script (what an engine script does) vs add_bias_force
+static void p3_callback(Scn const &sc, Result &r)
+{
+  static const double FM[4] = {0.25, -1.5, 1000.0, 0.0};
+  for (int after = 0; after < 2; after++) for (int with_biases = 0; with_biases < 2; with_biases++) for (int vi = 0; vi < 2; vi++) for (int fi = 0; fi < 4; fi++) {
+    std::string rec[3];
+    std::string problem;
+    for (int path = 0; path < 3; path++) {  // 0 script inside the callback, 1 add_bias_force inside the callback, 2 script BEFORE the step (documented: no effect)
+      vproxy *px = new_px(sc);
+      std::string conf = "scriptedColvarForces on\n" + std::string(after ? "scriptingAfterBiases on\n" : "scriptingAfterBiases off\n");
+      for (auto &c : sc.cvc) conf += c;
+      if (with_biases) for (auto &c : sc.bc) conf += c;
+      if (px->config(conf) != 0) { fprintf(stderr, "HARNESS-ERROR: callback configuration rejected: %s\n", px->errtxt.c_str()); _exit(2); }
+      std::string n = sc.cvn[vi];
+      // force text: the menu value in every component
+      colvar *cv0 = px->cv(n);
+      size_t dim = cv0->value().size();
+      std::string ft;
+      for (size_t i = 0; i < dim; i++) { char b[40]; snprintf(b, 40, "%s%.17g", i ? " " : "", FM[fi] * (1.0 + 0.5 * i)); ft += b; }
+      int calls = 0;
+      px->force_callback = [&]() -> int {
+        calls++;
+        if (path == 0) {
+          // as the Tcl wrapper would: the command runs inside calc(); error state must not be wiped here
+          std::vector<std::string> w = W({"cv", "colvar", n, "addforce", ft});
+          std::vector<unsigned char *> v;
+          for (auto &s : w) v.push_back((unsigned char *) s.c_str());
+          int rc = run_colvarscript_command((int) v.size(), v.data());
+          return rc == 0 ? COLVARS_OK : COLVARS_ERROR;
+        } else if (path == 1) {
+          colvar *cv = px->cv(n);
+          colvarvalue f(cv->value());
+          f.is_derivative();
+          f.from_simple_string(ft);
+          cv->enable(colvardeps::f_cv_apply_force);
+          cv->add_bias_force(f);
+        }
+        return COLVARS_OK;
+      };
+      for (long s = 0; s < 3; s++) {
+        place(*px, s);
+        if (path == 2) cvs(*px, W({"cv", "colvar", n, "addforce", ft}));
+        int rc = px->step(s);
+        rec[path] += "step rc " + std::to_string(rc) + "\n" + observe(*px);
+        if (path == 0 && sc.id == "A" && !with_biases && rc == 0) {
+          // own arithmetic: the engine receives f x gradient
+          double f = FM[fi];
+          auto X = [&](int a) { return px->x[a]; };
+          std::vector<cvm::rvector> want(6, cvm::rvector(0, 0, 0));
+          if (vi == 0) {
+            double m1 = px->m[0], m2 = px->m[1];
+            cvm::rvector dv = X(2) - (m1 * X(0) + m2 * X(1)) / (m1 + m2);
+            cvm::rvector u = dv / std::sqrt(dv.x * dv.x + dv.y * dv.y + dv.z * dv.z);
+            want[0] = (-f * m1 / (m1 + m2)) * u; want[1] = (-f * m2 / (m1 + m2)) * u; want[2] = f * u;
+          } else {
+            double m5 = px->m[4], m6 = px->m[5];
+            cvm::rvector F(f, 1.5 * f, 2.0 * f);
+            want[3] = -1.0 * F; want[4] = (m5 / (m5 + m6)) * F; want[5] = (m6 / (m5 + m6)) * F;
+          }
+          for (int a = 0; a < 6; a++) {
+            double sc_ = std::max(1.0, std::fabs(f) * 2);
+            if ((!close_rel(px->fapp[a].x, want[a].x, sc_) || !close_rel(px->fapp[a].y, want[a].y, sc_) || !close_rel(px->fapp[a].z, want[a].z, sc_)) && problem.empty())
+              problem = "atom " + std::to_string(a + 1) + " received (" + num(px->fapp[a].x) + "," + num(px->fapp[a].y) + "," + num(px->fapp[a].z) + "), force x gradient is (" + num(want[a].x) + "," + num(want[a].y) + "," + num(want[a].z) + ")";
+          }
+          SR q = cvs(*px, W({"cv", "colvar", n, "getappliedforce"}));
+          std::vector<double> g; { std::istringstream is(q.out); double d; while (is >> d) g.push_back(d); }
+          if ((g.empty() || !close_rel(g[0], f, std::max(1.0, std::fabs(f)))) && problem.empty()) problem = "getappliedforce returned \"" + q.out + "\" after addforce " + ft;
+        }
+      }
+      if (path < 2 && calls != 3) { fprintf(stderr, "HARNESS-ERROR: force callback ran %d times in 3 steps\n", calls); _exit(2); }
+      px->force_callback = nullptr;
+      delete px;
+    }
+    r.count("evaluations"); r.count("p3_pairs"); r.count("transitions", 9);
+    std::string key = sc.id + ":" + std::to_string(after) + std::to_string(with_biases) + std::to_string(vi) + std::to_string(fi);
+    r.seen("nontrivial", "p3cb:" + key);
+    r.seen("states", rec[0]);
+    std::string det = "{\"part\":3,\"scenario\":\"" + sc.id + "\",\"scriptingAfterBiases\":" + std::to_string(after) + ",\"with_biases\":" + std::to_string(with_biases) +
+                      ",\"variable\":\"" + sc.cvn[vi] + "\",\"force\":" + num(FM[fi]);
+    if (rec[0] != rec[1]) r.violation("C20:path:addforce-in-callback:script-differs-from-add_bias_force", det + ",\"first_difference\":\"" + jesc(first_diff(rec[0], rec[1])) + "\"}");
+    if (!problem.empty()) r.violation("C20:path:addforce-in-callback:engine-forces-differ-from-force-times-gradient", det + ",\"problem\":\"" + jesc(problem) + "\"}");
+    if (FM[fi] == 0.0 && rec[0] != rec[2]) r.violation("C20:path:addforce-zero-in-callback-differs-from-addforce-before-step", det + ",\"first_difference\":\"" + jesc(first_diff(rec[0], rec[2])) + "\"}");
+  }
+}
+
+// (c) state loaded into a fresh module: `cv loadfromstring` vs the engine's input state (queue + first step)
+static void p3_load(Scn const &sc, Result &r)
+{
+  for (int when = 0; when < 2; when++) {  // 0: before the first step of a fresh module; 1: after two steps of another trajectory
+    std::string rec[2];
+    bool okk[2] = {true, true};
+    for (int path = 0; path < 2; path++) {
+      vproxy *px = new_px(sc);
+      if (px->config(all_conf(sc)) != 0) _exit(2);
+      long e = 2;  // the donor state was saved at step 2: a resumed run repeats that step
+      if (when == 1) { for (long s = 10; s < 12; s++) { place(*px, s); px->step(s); } e = 12; }
+      if (path == 0) okk[0] = cvs(*px, W({"cv", "loadfromstring", sc.state3})).rc == 0;
+      else if (when == 0) px->queue_state_text(sc.state3);
+      else { cvm::clear_error(); px->input_stream_from_string("input state string", sc.state3); okk[1] = px->colvars->setup_input() == 0 && cvm::get_error() == 0; cvm::clear_error(); }
+      for (int k = 0; k < 2; k++) { place(*px, e + k); int rc = px->step(e + k); rec[path] += "step rc " + std::to_string(rc) + "\n" + observe(*px); }
+      delete px;
+    }
+    r.count("evaluations"); r.count("p3_pairs"); r.count("transitions", 6);
+    r.seen("nontrivial", "p3load:" + sc.id + std::to_string(when));
+    std::string det = "{\"part\":3,\"scenario\":\"" + sc.id + "\",\"loaded\":\"" + (when ? "after two steps" : "into a fresh module") + "\"";
+    if (!okk[0] || !okk[1]) r.violation("C20:path:loadfromstring:valid-state-rejected", det + "}");
+    else if (rec[0] != rec[1]) r.violation("C20:path:loadfromstring:differs-from-engine-input-state", det + ",\"first_difference\":\"" + jesc(first_diff(rec[0], rec[1])) + "\"}");
+  }
+}
+
+void part34(std::vector<Scn> const &scs, Args const &args, Result &total)
+{
+  bool thorough = args.thorough();
+  std::string scratch = args.kv.count("scratch") ? args.kv.at("scratch") : ".";
+  // work items: (scenario, start state, sequence) for part 4 + part 3 singles
+  struct Item { int si, start, part; std::vector<int> ops; };
+  std::vector<Item> items;
+  std::vector<int> use = {0, 1, 2};
+  for (int si : use) {
+    int depth = thorough ? (si == 0 ? 4 : 3) : (si == 0 ? 3 : 2);
+    // part 3: every single action from the configured and the after-3-steps state, and from the empty module
+    for (int st = 0; st < 3; st++) for (int op = 0; op < NOPS; op++) items.push_back({si, st, 3, {op}});
+    // part 4: all sequences of length 2..depth from the configured state, 2..depth-1 from the after-3-steps state
+    for (int st = 1; st < 3; st++) {
+      int dmax = st == 1 ? depth : depth - 1;
+      std::vector<std::vector<int>> frontier = {{}};
+      for (int d = 1; d <= dmax; d++) {
+        std::vector<std::vector<int>> nextf;
+        for (auto &f : frontier) for (int op = 0; op < NOPS; op++) { auto g = f; g.push_back(op); nextf.push_back(g); }
+        if (d >= 2) for (auto &g : nextf) items.push_back({si, st, 4, g});
+        frontier.swap(nextf);
+      }
+    }
+  }
+  size_t nseq = items.size();
+  // part 3 extras as pseudo items
+  for (int si = 0; si < (int) scs.size(); si++) for (int kind = 0; kind < 3; kind++) items.push_back({si, -1 - kind, 3, {}});
+  bool ok = run_sharded(args.jobs, [&](int shard, int nsh, Result &r) {
+    g_wdir = scratch + "/p4w" + std::to_string(shard) + "x";
+    mkdir(g_wdir.c_str(), 0755);
+    if (chdir(g_wdir.c_str()) != 0) herr("chdir");
+    size_t const BATCH = 60;
+    for (size_t b0 = shard * BATCH; b0 < items.size(); b0 += nsh * BATCH) {
+      size_t b1 = std::min(items.size(), b0 + BATCH);
+      run_cases_forked(b0, b1, [&](size_t i, Result &rr) {
+        Item const &it = items[i];
+        if (it.start >= 0) check_seq(scs[it.si], it.start, it.ops, rr, it.part);
+        else if (it.start == -1) p3_config(scs[it.si], rr);
+        else if (it.start == -2) p3_callback(scs[it.si], rr);
+        else p3_load(scs[it.si], rr);
+      }, [&](size_t i, std::string const &kind, std::string const &tail) {
+        Item const &it = items[i];
+        static const char *SN[3] = {"empty", "configured", "after-3-steps"};
+        if (it.start >= 0)
+          r.violation("C20:crash:sequence:last-op-" + ops_sig(it.ops) + ":" + kind,
+                      "{\"part\":" + std::to_string(it.part) + ",\"scenario\":\"" + scs[it.si].id + "\",\"start_state\":\"" + SN[it.start] + "\",\"operations\":" + ops_json(it.ops) +
+                      ",\"death\":\"" + jesc(kind) + "\",\"report\":\"" + jesc(tail) + "\"}");
+        else
+          r.violation(std::string("C20:crash:path-pair:") + (it.start == -1 ? "config" : (it.start == -2 ? "addforce-callback" : "loadfromstring")) + ":" + kind,
+                      "{\"part\":3,\"scenario\":\"" + scs[it.si].id + "\",\"death\":\"" + jesc(kind) + "\",\"report\":\"" + jesc(tail) + "\"}");
+      }, r);
+    }
+  }, total, 3600);
+  if (!ok) exit(2);
+  total.notes.push_back("parts 3-4: " + std::to_string(nseq) + " operation sequences (alphabet of " + std::to_string((int) NOPS) + " script operations), each run through the script and through the direct path");
+}
